@@ -15,7 +15,7 @@ fn out_s() -> impl Strategy<Value = OutS> {
     (0u8..6, 2_500_000u64..6_000_000, prop_oneof![Just(0u8), any::<u8>()]).prop_map(|(key, coin, asset_share)| OutS { key, coin, asset_share })
 }
 
-fn plutus_s() -> impl Strategy<Value = PlutusS> {
+pub fn plutus_s() -> impl Strategy<Value = PlutusS> {
     (1u8..=3, 0u8..4, any::<u8>(), 3_000_000u64..50_000_000, 0u64..5_000_000, 0u64..2_000_000_000, 0u8..4, 6_000_000u64..40_000_000, any::<bool>(), any::<bool>(), any::<bool>())
         .prop_map(|(version, script_tag, datum, coin, mem, steps, collateral_key, collateral_coin, collateral_return, total_collateral, redeemer_map)| PlutusS {
             version, script_tag, datum, coin, mem, steps, collateral_key, collateral_coin, collateral_return, total_collateral, redeemer_map,
